@@ -373,6 +373,11 @@ class MethodTranslator:
         if isinstance(node, ast.Attribute):
             out = self.effects(node.value, ctx)
             t = p.typeof(node.value, ctx)
+            if t and t[0] == "obj" and any((k, node.attr) in p.cv_fields or (k, node.attr) == p.cfg["lock_owner"]
+                                           for c in t[1] for k in p.mro(c)):
+                # only `with`, `.wait()`, `.notify()`, `.notify_all()` may touch a lock or condition
+                out.append(self.other(node, "lock or condition used as a value"))
+                return out
             if t and t[0] == "obj":
                 # property access on a program object = call of the getter (when it does anything)
                 cands = []
@@ -902,6 +907,9 @@ def translate_program(name, repo):
                         if d != c and c in p.mro(d) and p.find_method(d, x.attr) != k:
                             ok = False
     p.facts["self_calls_resolve_lexically"] = ok
+    tops = [n for n in p.tree.body if isinstance(n, ast.ClassDef)]
+    p.facts["all_top_level_classes_translated"] = all(n.name in p.classes for n in tops)
+    p.facts["no_module_level_functions"] = not any(isinstance(n, (ast.FunctionDef, ast.AsyncFunctionDef)) for n in p.tree.body)
     p.facts["all_classes_found"] = not p.missing
     return p, res
 
@@ -1015,6 +1023,26 @@ def cross_facts(repo, progs):
         isinstance(x, ast.Attribute) and x.attr == "lock" and not (
             (isinstance(x.value, ast.Name) and x.value.id == "self") or
             (isinstance(x.value, ast.Attribute) and x.value.attr == "llc")) for x in ast.walk(llc.tree))
+    # no other module of the package touches the conditions or the socket / controller locks
+    names = {c.split(".")[-1] for c in list(tco.cvs) + list(llc.cvs)}
+    bad = []
+    base = os.path.join(repo, "src", "nfc")
+    for root, _, files in sorted(os.walk(base)):
+        for fn in sorted(files):
+            if not fn.endswith(".py"):
+                continue
+            path = os.path.join(root, fn)
+            if os.path.abspath(path) in (os.path.abspath(tco.path), os.path.abspath(llc.path)):
+                continue
+            try:
+                tree = ast.parse(open(path, encoding="latin-1").read())
+            except SyntaxError:
+                bad.append(path)
+                continue
+            for x in ast.walk(tree):
+                if isinstance(x, ast.Attribute) and x.attr in names and isinstance(x.value, ast.Attribute):
+                    bad.append("%s:%d" % (os.path.relpath(path, repo), x.lineno))
+    facts["no_other_module_uses_the_conditions"] = not bad
     return facts, sorted(stored)
 
 
